@@ -236,6 +236,17 @@ pub const PROPS: &[PropSpec] = &[
         thorough_runs: 150_000,
         rule: "command definitions yielding 0..3 values of mixed types, explicit .append inside, a runtime error at a chosen output position, custom suffix / ttl, invalid definitions; define / redefine / call sequences on 2 names x 1-3 contexts, bursts of 2-4 overlapping calls whose blocking closures are scheduled actors; oracle per call on the append log: recv* in order then exactly one complete, or exactly one error; stamps = latest valid definition of the caller's context + call id; no environment leak between calls; no call executed twice; non-trivial = a call was checked; distinct = distinct decision-sequence hash",
     },
+    PropSpec {
+        id: "C17",
+        engine: "e5",
+        mix: &[],
+        classes: &["restart/", "cmd/wrong-definition", "cmd/undefined-executed", "cmd/executed-twice", "service/panic"],
+        nontrivial: &[&["restart:checked"], &["restart:handler-restored", "restart:handler-stays-stopped", "restart:generator-restored", "cmd:call-checked"]],
+        must_reach: &["restart:clean", "restart:crash", "restart:crash-after-unregister", "restart:checked", "restart:handler-restored", "restart:handler-stays-stopped", "restart:generator-restored", "cmd:call-checked"],
+        quick_runs: 2400,
+        thorough_runs: 120_000,
+        rule: "histories of handler register / unregister / replace / closure error / invalid script, generator spawn / refused spawn, command define / redefine / call over 2 names x 1-3 contexts (the same names in several contexts), with one or more restarts: a clean stop at quiescence or a crash a few scheduler steps into whatever is pending (byte copy of the directory, new runtime, new serve loops, the old incarnation's threads abandoned); after each restart probes (triggers, calls, a simulated second for generators); oracle: exactly the handlers / generators the stream showed as active are started again with the same ids, nothing stopped / replaced / refused comes back, historical triggers and calls are not executed again, calls are answered by the latest valid definition of their context; non-trivial = a restart was checked and something was restored or correctly left stopped; distinct = distinct decision-sequence hash",
+    },
 ];
 
 pub fn spec(prop: &str) -> Option<&'static PropSpec> {
